@@ -222,9 +222,16 @@ def check_simplification(case, r: R):
     # the simplified network must itself be solvable: a stale short left behind next to an exempted one forms a
     # zero-impedance loop whose individual currents are indeterminate (exactly as in the original) - not judged
     res_spec = {'ref': ref_label, 'branches': [dict(Eb[zb.id], n1=zb.node1, n2=zb.node2) for zb in res.branches]}
-    if rs.solve(res_spec) is None:
+    rres = rs.solve(res_spec)
+    if rres is None:
         r.cls('result-has-zero-impedance-loop')
         return
+    # the library solves the network it returned: its rounding residue scales with the sources and immittances that
+    # are still in it (a kept current source circulating through kept shorts past a shorted load), also where the
+    # fully contracted expectation is identically zero and the original network - being ill posed - offers no floor
+    R_phi, R_I = tol.scales(res_spec, rres)
+    S_phi = max(S_phi, R_phi)
+    S_I = {i: max(v, R_I.get(i, 0.0)) for i, v in S_I.items()}
     sol = None
     with r.lib('solve-simplified'):
         sol = solver()(res)
